@@ -33,6 +33,21 @@ def blocked_test_regions(ctx, b):
     return reg
 
 
+def registration_fns(ctx):
+    """BlockingManager entry points that put a client into a key's waiter queue"""
+    def compute():
+        out = set()
+        for fn, b in ctx.prog.bodies.items():
+            if not fn.startswith(BM) or "::tests::" in fn:
+                continue
+            for f2 in ctx.cg.reach([fn]):
+                b2 = ctx.prog.bodies.get(f2)
+                if b2 is not None and any(re.match(r"^std::collections::VecDeque::<network::blocking::BlockedClient>::(push_back|push_front|insert)$", t["f"] or "") for _, t in b2.calls()):
+                    out.add(fn); break
+        return out
+    return ctx.memo("blk_registration_fns", compute)
+
+
 def wake_path_fns(ctx):
     roots = [SERVER + "process_wakeups"]
     ctx.prog.need(roots[0])
@@ -89,11 +104,9 @@ def rule_pop(ctx, R):
 def some_edge_after(b, call_bb):
     """target block taken when the Option carried by the call's Result is Some, following `?`"""
     rs = shared.result_switch(b, call_bb)
-    if rs is None:
-        return None
-    # after `?`: the Continue payload is an Option<Vec<u8>>: find the next discriminant switch
-    # on an Option in the ok continuation
-    seen = set(); st = list(rs["ok"])
+    # after `?` (or `.unwrap_or(None)` / a match that maps the error to None): the payload is an
+    # Option<Vec<u8>>: find the next discriminant switch on such an Option
+    seen = set(); st = list(rs["ok"]) if rs is not None else [x for x in [b.term(call_bb)["t"]] if x >= 0]
     while st:
         x = st.pop(0)
         if x in seen:
@@ -116,9 +129,7 @@ def some_edge_after(b, call_bb):
 
 def none_edge_after(b, call_bb):
     rs = shared.result_switch(b, call_bb)
-    if rs is None:
-        return None
-    seen = set(); st = list(rs["ok"])
+    seen = set(); st = list(rs["ok"]) if rs is not None else [x for x in [b.term(call_bb)["t"]] if x >= 0]
     while st:
         x = st.pop(0)
         if x in seen:
@@ -153,7 +164,7 @@ def rule_strand(ctx, R):
                 continue
             n += 1
             none = none_edge_after(b, i)
-            regs = {j for j, tt in b.calls() if callee(tt) == BM + "register_blocked"}
+            regs = {j for j, tt in b.calls() if callee(tt) in registration_fns(ctx)}
             unb = set()
             for x, bb in enumerate(b.bbs):
                 for st in bb["s"]:
@@ -195,6 +206,47 @@ def rule_strand(ctx, R):
             if not ok:
                 R.finding(fn, "empty-pop-strands-client:" + callee(t).split("::")[-1],
                           "a woken client whose element was taken by someone else stays in the Blocked state with no registration left (neither re-registered nor answered): it is never served and never times out", b.loc(i))
+            # every way out after the pop -- also its error edge (the key is no longer a list) --
+            # answers the client (state store), registers it again, or is the failed-delivery
+            # path that pushes the element back (R-BLK-POP owns that one)
+            backs = {j for j, tt in b.calls() if callee(tt) in PUSHES}
+            rets = [x for x, bb in enumerate(b.bbs) if bb["t"]["k"] == "return"]
+            succ = [x for x in b.succs(i)]
+            p = cfg.path_avoiding(b, succ, rets, regs | unb | backs)
+            R.inst(fn, "pop-exits:" + callee(t).split("::")[-1], {"every_exit_answers_or_reregisters": p is None})
+            if p is not None and ok:
+                R.finding(fn, "pop-error-strands-client:" + callee(t).split("::")[-1],
+                          "after the wake-path pop (line %d) the function can return without answering the client or registering it again (the pop's error edge: the key was deleted and re-created with another type between the push and the wake-up): the client stays Blocked with no registration, is never served and never gets its timeout's nil" % b.bb_line(i),
+                          b.loc(i), ["bb%d line %d" % (x, b.bb_line(x)) for x in p][-8:])
+            # B: the wake-up dropped ALL registrations of a multi-key waiter; when it finds nothing
+            # it must look at its other keys (a push there during the window woke nobody)
+            others = set()
+            for h, body in cfg.loops(b).items():
+                for x in body:
+                    tt = b.term(x)
+                    if tt["k"] == "call" and (callee(tt) == BM + "notify_key_ready" or callee(tt) in POPS or re.search(r"StorageEngine::(llen|exists|lrange)$", callee(tt))):
+                        others.add(x)
+            looks = bool(others & reach) if regs & reach else True
+            R.inst(fn, "empty-pop-other-keys:" + callee(t).split("::")[-1], {"other_keys_examined_after_reregistration": looks})
+            if not looks:
+                R.finding(fn, "reregistration:other-keys-not-examined:" + callee(t).split("::")[-1],
+                          "a multi-key waiter that finds its notified key empty is registered again without looking at its other keys: the wake-up had removed all its registrations, so an element pushed to another of its keys in between woke nobody and the client stays blocked while that key holds an element", b.loc(i))
+            # C: re-registration must give the client its old place back
+            for r_ in sorted(regs & reach):
+                tgt = callee(b.term(r_))
+                appends = []
+                for f2 in sorted(ctx.cg.reach([tgt])):
+                    b2 = ctx.prog.bodies.get(f2)
+                    if b2 is None:
+                        continue
+                    for j, tt in b2.calls():
+                        if re.match(r"^std::collections::VecDeque::<network::blocking::BlockedClient>::push_back$", tt["f"] or ""):
+                            appends.append((f2, j))
+                R.inst(fn, "reregistration-position:" + callee(t).split("::")[-1], {"via": tgt.split("::")[-1], "appends_at_the_back": bool(appends)})
+                if appends:
+                    f2, j = appends[0]
+                    R.finding(fn, "reregistration:appended-at-the-back:" + callee(t).split("::")[-1],
+                              "the woken client whose element was taken is registered again through %s, which appends it at the back of the key's queue (%s): clients that blocked after it are now served before it" % (tgt.split("::")[-1], ctx.prog.bodies[f2].loc(j)), b.loc(r_))
     R.floor("wake_path_pops", n)
 
 
@@ -332,7 +384,7 @@ def rule_regpair(ctx, R):
     R.floor("registry_methods", n)
     for h in ("handle_blpop", "handle_brpop"):
         b = ctx.prog.need(SERVER + h)
-        reg = [i for i, t in b.calls() if callee(t) == BM + "register_blocked"]
+        reg = [i for i, t in b.calls() if callee(t) in registration_fns(ctx)]
         st = [i for i, t in b.calls() if any(stores_blocked(ctx, c) for c in t["clos"])]
         R.inst(b.fn, "register+state", {"register_blocked": len(reg), "state_blocked_store": len(st)})
         if bool(reg) != bool(st) or not reg:
@@ -418,6 +470,19 @@ def rule_fifo(ctx, R):
                 continue
             n += 1
             ok = bool(ORDER_KEEPING.search(f))
+            if not ok and m.group(1) == "insert" and len(t["a"]) > 2:
+                # insertion at the place the arrival time gives: the index comes from a search
+                # (position / partition_point / binary_search_by) whose closure compares blocked_at
+                P = prov.operand_origins(b, t["a"][1], deep=True)
+                for r_ in P.roots:
+                    if r_[0] == "call" and re.search(r"::(position|partition_point|binary_search_by|binary_search_by_key|rposition)(::<.*>)?$", r_[1]):
+                        for cl in b.term(r_[2]).get("clos") or ():
+                            cb = ctx.prog.bodies.get(cl)
+                            if cb is not None and any(isinstance(e, dict) and e.get("f") == "network::blocking::BlockedClient.blocked_at"
+                                                      for bb_ in cb.bbs for st_ in bb_["s"] if st_["k"] == "="
+                                                      for pl in ([st_["r"].get("p")] if st_["r"]["k"] in ("ref",) else [op_place(st_["r"]["o"])] if st_["r"]["k"] == "use" and not op_is_const(st_["r"]["o"]) else [])
+                                                      if pl for e in pl["p"]):
+                                ok = True
             R.inst(fn, "waiter-queue-op:" + m.group(1), {"function": fn, "op": m.group(1), "order_preserving": ok} if not ok or n % 3 == 0 else None)
             if not ok:
                 R.finding(fn, "waiter-queue:%s" % m.group(1),
@@ -616,3 +681,48 @@ def rule_forever(ctx, R):
                           "%s turns the client's parsed timeout into a Duration (line %d) on a path with no test that the number is not zero: a spelling of zero that takes this path (0.0, 0e0, -0) becomes a deadline of `now` instead of `wait forever`, and the blocked client is answered nil by the next timeout scan" % (fn.split("::")[-1], b.bb_line(i)),
                           b.loc(i), ["bb%d line %d" % (x, b.bb_line(x)) for x in wit][-8:])
     R.floor("timeout_duration_constructions", n)
+
+
+# ---- R-BLK-PIPELINE -------------------------------------------------------------------------------
+def rule_pipeline(ctx, R):
+    """a client that is blocked executes nothing: in the loop that executes the frames of one read,
+    every call of process_frame is dominated, inside the loop, by a test of the connection's
+    Blocked state one of whose edges leaves the loop (the rest of the batch waits until the
+    client is served or timed out).  Otherwise the commands pipelined behind a BLPOP run while it
+    blocks: a second blocking pop overwrites the first one's state and is never answered, a nil
+    from the first timeout releases a later infinite wait."""
+    n = 0
+    pf = SERVER + "process_frame"
+    for fn, b in sorted(ctx.prog.bodies.items()):
+        if not fn.startswith("network::server::") or "::tests::" in fn:
+            continue
+        for h, body in sorted(cfg.loops(b).items()):
+            calls = [i for i in body if b.term(i)["k"] == "call" and callee(b.term(i)) == pf and not b.bbs[i]["cleanup"]]
+            if not calls:
+                continue
+            n += 1
+            # blocked tests in the loop: a bool call into a function that matches on the Blocked
+            # state (is_connection_blocked and friends), or a state match in this body
+            tests = set()
+            for i in body:
+                t = b.term(i)
+                if t["k"] == "call" and (b.locals[t["d"]["l"]] or "").endswith("bool"):
+                    tgt = [callee(t)] + list(t.get("clos") or [])
+                    for f2 in tgt:
+                        for f3 in [f2] + sorted(ctx.cg.reach([f2]) if f2 in ctx.prog.bodies else []):
+                            b3 = ctx.prog.bodies.get(f3)
+                            if b3 is not None and f3.startswith("network::") and blocked_test_regions(ctx, b3):
+                                tests.add(i); break
+            guarded = False
+            for c in calls:
+                for x in tests:
+                    if not cfg.dominates(b, x, c):
+                        continue
+                    sw = shared._follow_to_switch(b, b.term(x)["t"], b.term(x)["d"]["l"])
+                    if sw and any(y not in body or c not in cfg.fwd(b, [y]) - {h} for y in [v for _, v in sw[1]["ts"]] + [sw[1]["o"]]):
+                        guarded = True
+            R.inst(fn, "frame-loop", {"function": fn, "loop_at": b.loc(h), "process_frame_calls": len(calls), "blocked_tests_in_loop": len(tests), "execution_stops_when_blocked": guarded})
+            if not guarded:
+                R.finding(fn, "frame-loop:executes-while-blocked",
+                          "%s executes every frame of a read in one loop (line %d) without testing whether an earlier frame of the batch left the connection blocked: commands pipelined behind a BLPOP/BRPOP run while the client is blocked" % (fn.split("::")[-1], b.bb_line(h)), b.loc(h))
+    R.floor("frame_execution_loops", n)
